@@ -117,6 +117,9 @@ func (s *Signing) Run(
 	}
 
 	msgChn := make(chan *comm.WrappedMessage)
+	// a retried signing is run again on the same object: release the previous run's subscription
+	// first, Stop only knows the latest one
+	s.Communication.UnSubscribe(s.subscriptionID)
 	s.subscriptionID = s.Communication.Subscribe(s.SessionID(), comm.TssKeySignMsg, msgChn)
 	s.Handler, err = protocol.NewMultiHandler(
 		frost.SignTaproot(
